@@ -341,3 +341,31 @@ def C15.bad (nowSec : Int) (effect : String) : Option Node → List (Entry × Re
 
 end Spec
 end Esc
+
+namespace Esc
+namespace Spec
+
+/-! ### C08 -/
+
+/-- Names GET was called for, in order. -/
+def getNames (j : Journal) : List String := j.filterMap (fun e => match e.call with | .getNode n => some n | _ => none)
+
+/-- Names of nodes whose UPDATE was accepted, in order. -/
+def okUpdateNames (j : Journal) : List String :=
+  j.filterMap (fun e => match e.call with | .updateNode o => if e.ok then some o.name else none | _ => none)
+
+/-- Names of the nodes this journal put the escalator taint on (accepted UPDATEs that add it). -/
+def taintedNames (view : View) (j : Journal) : List String :=
+  (j.filter (isTaintAdd view)).filterMap (fun e => match e.call with | .updateNode o => some o.name | _ => none)
+
+/-- **C08**: no untainted node that was not even attempted is strictly older than a node that was
+    tainted. -/
+def C08.holds (c : Ctx) (j : Journal) : Bool :=
+  let unt := nodesOf c.dry c.st .untainted c.view.nodes
+  let attempted := getNames j
+  let tainted := taintedNames c.view j
+  unt.all (fun x => attempted.contains x.name ||
+    unt.all (fun y => !tainted.contains y.name || !decide (x.created < y.created)))
+
+end Spec
+end Esc
